@@ -100,8 +100,12 @@ impl HotReloadingData {
 
     fn update_if_static(&mut self) {
         if let CacheKind::Static(cache, reloader) = &mut self.cache {
+            #[cfg(assets_manager_verif)]
+            detsim::probe("static_pass_begin", self.to_reload.len() as u64);
             let cache = BorrowedCache::new(cache, reloader, &self.source);
             run_update(&mut self.to_reload, &mut self.deps, cache);
+            #[cfg(assets_manager_verif)]
+            detsim::probe("static_pass_end", 0);
         }
     }
 
